@@ -7,7 +7,8 @@ For every tree (any nesting, any repetition counts):
 * `isEmpty_iff` : `empty()` says exactly that the decompressed sample is empty;
 * `beq_eq` : the structural comparison used while fusing is equality;
 * `decompress_fuse`, `decompress_finish`, `decompress_flat` : flattening and fusing (`flatten_and_simplify_into`) keep the sample;
-* `decompress_simplified` : **`simplified()` decompresses to the same reference sample.**
+* `decompress_simplified` : **`simplified()` decompresses to the same reference sample**;
+* `periodic_decompress`, `decompress_tryFactorize` : `try_factorize` (children periodic with the given factor) keeps the sample.
 -/
 namespace Stim.RefTree
 
@@ -201,6 +202,77 @@ theorem decompress_simplified (t : Tree) : t.simplified.decompress = t.decompres
         rw [decompress_eta f0, hc.1, hc.2]
         simp [repB_one, decompressList]
       · rw [decompress_mk, repB_one, ← h]; simp
+
+/-- a list that repeats with period `h` is `k` copies of its first `h` items -/
+theorem periodic_decompress : ∀ (k : Nat) (l : List Tree) (h : Nat), l.length = h * k →
+    (∀ i, i + h < l.length → l[i]? = l[i + h]?) → decompressList l = repB k (decompressList (l.take h))
+  | 0, l, h, hlen, _ => by
+    have : l = [] := by simpa using hlen
+    subst this; simp [decompressList, repB]
+  | k+1, l, h, hlen, hper => by
+    have hsplit : l = l.take h ++ l.drop h := (List.take_append_drop h l).symm
+    have hl' : (l.drop h).length = h * k := by simp [hlen, Nat.mul_succ]
+    have hper' : ∀ i, i + h < (l.drop h).length → (l.drop h)[i]? = (l.drop h)[i + h]? := by
+      intro i hi
+      simp only [List.length_drop] at hi
+      rw [List.getElem?_drop, List.getElem?_drop]
+      have := hper (h + i) (by omega)
+      rw [this]; congr 1; omega
+    have ih := periodic_decompress k (l.drop h) h hl' hper'
+    have htake : k ≥ 1 → (l.drop h).take h = l.take h := by
+      intro hk
+      apply List.ext_getElem?
+      intro j
+      rw [List.getElem?_take, List.getElem?_take]
+      split
+      · rename_i hj
+        rw [List.getElem?_drop]
+        have hk2 : h * 2 ≤ l.length := by
+          have e1 : h * (k + 1) = h * k + h := Nat.mul_succ h k
+          have e2 : h * 1 ≤ h * k := Nat.mul_le_mul_left h hk
+          omega
+        have := hper j (by omega)
+        rw [this]; congr 1; omega
+      · rfl
+    show decompressList l = decompressList (l.take h) ++ repB k (decompressList (l.take h))
+    conv => lhs; rw [hsplit]
+    rw [decompressList_append, ih]
+    cases k with
+    | zero => simp [repB]
+    | succ k' => rw [htake (by omega)]
+
+/-- **`try_factorize` keeps the sample.** -/
+theorem decompress_tryFactorize (t : Tree) (k : Nat) : (t.tryFactorize k).decompress = t.decompress := by
+  cases t with
+  | mk pre ch reps =>
+    unfold Tree.tryFactorize
+    simp only
+    split
+    · rfl
+    · rename_i hg
+      split
+      · rename_i hall
+        simp only [Bool.or_eq_true, beq_iff_eq, Bool.not_eq_true', bne_iff_ne, ne_eq, not_or, Bool.not_eq_false,
+          List.isEmpty_iff, Decidable.not_not] at hg
+        obtain ⟨⟨hk0, hpre⟩, hmod⟩ := hg
+        subst hpre
+        have hper : ∀ i, i + ch.length / k < ch.length → ch[i]? = ch[i + ch.length / k]? := by
+          intro i hi
+          rw [List.all_eq_true] at hall
+          generalize ch.length / k = h at hall hi ⊢
+          have := hall i (List.mem_range.mpr (by omega))
+          have h1 : i < ch.length := by omega
+          rw [List.getElem?_eq_getElem h1, List.getElem?_eq_getElem hi] at this ⊢
+          simp only at this
+          rw [beq_eq _ _ this]
+        have hlen : ch.length = (ch.length / k) * k := by
+          have := Nat.div_add_mod ch.length k
+          rw [hmod, Nat.add_zero, Nat.mul_comm] at this
+          exact this.symm
+        have := periodic_decompress k ch (ch.length / k) hlen hper
+        simp only [Tree.decompress, List.nil_append]
+        rw [this, repB_mul, Nat.mul_comm]
+      · rfl
 
 /-- non-vacuity: two equal neighbours `2 × (1 ; 2 × (0 1))` fuse into `4 × …` and decompress to the same 20 bits -/
 example : (Tree.mk [] [Tree.mk [true] [Tree.mk [false, true] [] 2] 2, Tree.mk [true] [Tree.mk [false, true] [] 2] 2] 1).simplified.decompress.length = 20 := by
